@@ -18,11 +18,11 @@ CONSTANTS
   MaxIdx = 2
   GenDepth = 14
   AtomicClose = TRUE
-  OlderSel = {0, 1, 2}
+  OlderSel = {0, 2}
   MaxFullWals = 1
   MaxIncs = 2
   MaxIncWals = 2
-  TmpSel = {FALSE, TRUE}
+  TmpSel = {TRUE}
   MaxCrashes = 2
 INVARIANTS NoFailure Recovered NoTmpLeft
 VIEW ReapView
